@@ -1,18 +1,209 @@
 import Goyang.Model.Indent
 import Goyang.Spec.Indent
+import Goyang.Lemmas.Indent
 /-
 C20 — indented writing is chunk-independent and accounts bytes truthfully.
 Property theorems only; helper lemmas live in Goyang/Lemmas/Indent.lean.
+
+Reading aid.  `Spec.Indent.render pre atStart s` is the byte-level rendering: `pre` in front of
+every byte of `s` that starts a line (`atStart` says whether the first byte does), nothing else
+added — in particular nothing after a final line feed.  `Spec.Indent.callerBytesIn pre atStart s k`
+counts the caller's bytes among the first `k` bytes of that rendering.  `Spec.Indent.atStartAfter
+atStart s` says whether the byte after `s` starts a line.  The writer state `p` (`iw.partial`)
+is "the current output line already carries its prefix", so a Write in state `p` renders with
+`atStart = !p`; a fresh writer has `p = false`.
+
+All statements hold for every prefix, text, chunking and stop position; hypotheses appear only
+where the Go code itself branches (`len(buf) == 0` returns before the underlying writer is called).
+The model's `write` describes `(*iw).Write`, which exists only for a non-empty prefix
+(`NewWriter(w, "")` returns `w` itself); the theorems do not need that restriction, because with
+an empty prefix the rendering is the text itself (`render_empty_prefix`).
 -/
 namespace Goyang.Props.C20
 open Goyang.Model.Indent
+open Goyang.Spec.Indent (tagged render callerBytesIn atStartAfter)
+open Goyang.Lemmas.Indent (join_write written_write partial_bit render_append atStartAfter_append
+  callerBytesIn_le render_getLast? tagged_append countP_tagged)
+
+/-! ### one-shot `indent.String` / `indent.Bytes` -/
+
+/-- The one-shot function produces the byte-level rendering: the prefix at the start of every
+line, nothing after the final line break.  (No hypothesis on `pre`: see `render_empty_prefix`.) -/
+theorem oneshot_spec (pre s : Bytes) : indent pre s = render pre true s := by
+  unfold indent
+  by_cases hp : pre = []
+  · subst hp; simp [Lemmas.Indent.render_empty_prefix]
+  · by_cases hs : s = []
+    · subst hs; simp [Lemmas.Indent.render_nil]
+    · have := join_write pre false hs
+      simp only [Bool.false_eq_true, if_false, Bool.not_false] at this
+      simp [hp, hs, this]
+
+/-- With an empty prefix the specified rendering is the text itself. -/
+theorem render_empty_prefix (atStart : Bool) (s : Bytes) : render [] atStart s = s :=
+  Lemmas.Indent.render_empty_prefix atStart s
+
+/-- Degenerate cases of the one-shot function: an empty prefix or an empty text give the text. -/
+theorem oneshot_degenerate (pre s : Bytes) : indent [] s = s ∧ indent pre [] = [] := by
+  simp [indent]
+
+/-- Nothing is added after the end of the text: the indented text ends with the same byte, so a
+text that ends in a line break is rendered ending in that line break. -/
+theorem oneshot_last (pre s : Bytes) (h : s ≠ []) : (indent pre s).getLast? = s.getLast? := by
+  rw [oneshot_spec]; exact render_getLast? pre true h
+
+example : indent [62, 62] [97, 98, 10, 10, 99, 10] = [62, 62, 97, 98, 10, 62, 62, 10, 62, 62, 99, 10] := by decide
+example : render [62, 62] true [97, 98, 10, 10, 99, 10] = [62, 62, 97, 98, 10, 62, 62, 10, 62, 62, 99, 10] := by decide
+example : indent [62] [10, 97] = [62, 10, 62, 97] := by decide
+example : ([97, 98, 10] : Bytes) ≠ [] := by decide
+
+/-! ### one successful `Write` -/
+
+/-- Everything a successful Write does, for every state, prefix and buffer (the empty buffer
+included): the underlying writer is handed, and takes, the rendering of `buf` continuing the
+current line state; the call reports `len(buf)` and no error; afterwards `partial` is true exactly
+when the output so far does not end in a line feed. -/
+theorem write_success (pre : Bytes) (p : Bool) (buf : Bytes) :
+    write pre p buf none =
+      { partial_ := !(atStartAfter (!p) buf), handed := render pre (!p) buf,
+        reached := render pre (!p) buf, n := buf.length, err := false } := by
+  by_cases hb : buf = []
+  · subst hb; simp [write, Lemmas.Indent.render_nil, atStartAfter]
+  · have hj := join_write pre p hb
+    have hp := partial_bit pre (!p) hb
+    simp only [write, List.isEmpty_iff, hb, if_false, hj, hp]
 
 /-- A successful Write reports the full length of its argument. -/
 theorem write_ok_len (pre : Bytes) (p : Bool) (buf : Bytes) :
     (write pre p buf none).n = buf.length ∧ (write pre p buf none).err = false := by
-  unfold write
-  split
-  · next h => simp_all [List.isEmpty_iff]
-  · simp
+  simp [write_success]
+
+/-- The state bit, read on its own: after a successful Write of a non-empty buffer the writer
+remembers "inside a line" iff the buffer does not end in a line feed. -/
+theorem write_partial_bit (pre : Bytes) (p : Bool) (buf : Bytes) (h : buf ≠ []) :
+    (write pre p buf none).partial_ = (buf.getLast? != some NL) := by
+  obtain ⟨b, hb⟩ := Lemmas.Indent.getLast?_some h
+  simp [write_success, atStartAfter, hb, Lemmas.Indent.specNL, bne]
+
+example : write [62, 62] false [97, 10, 98] none =
+    { partial_ := true, handed := [62, 62, 97, 10, 62, 62, 98], reached := [62, 62, 97, 10, 62, 62, 98],
+      n := 3, err := false } := by decide
+example : write [62, 62] true [97, 10, 98, 10] none =
+    { partial_ := false, handed := [97, 10, 62, 62, 98, 10], reached := [97, 10, 62, 62, 98, 10],
+      n := 4, err := false } := by decide
+
+/-! ### any division into successful Writes -/
+
+/-- Chunk independence from any writer state: what reaches the underlying writer over a sequence
+of successful Writes (empty ones allowed) is the rendering of the concatenated text, and every
+call returns `(len(chunk), nil)`. -/
+theorem stream_from_state (pre : Bytes) (p : Bool) (chunks : List Bytes) :
+    writes pre p (chunks.map (·, none)) =
+      (render pre (!p) chunks.flatten, chunks.map (fun c => ((c.length : Int), false))) := by
+  induction chunks generalizing p with
+  | nil => simp [writes, Lemmas.Indent.render_nil]
+  | cons c cs ih =>
+    simp only [List.map_cons, writes, write_success, ih, Bool.not_not, List.flatten_cons,
+      render_append]
+
+/-- Text written through a fresh indenting writer in any division into Write calls comes out
+exactly as the one-shot function renders the concatenated text, and every Write reports the full
+length of its argument and no error. -/
+theorem stream_eq_oneshot (pre : Bytes) (chunks : List Bytes) :
+    (writes pre false (chunks.map (·, none))).1 = indent pre chunks.flatten ∧
+    (writes pre false (chunks.map (·, none))).1 = render pre true chunks.flatten ∧
+    (writes pre false (chunks.map (·, none))).2 = chunks.map (fun c => ((c.length : Int), false)) := by
+  simp [stream_from_state, oneshot_spec]
+
+example : writes [62, 62] false ([[97], [], [98, 10, 10], [99, 10, 100]].map (·, none)) =
+    (indent [62, 62] [97, 98, 10, 10, 99, 10, 100], [(1, false), (0, false), (3, false), (3, false)]) := by decide
+example : indent [62, 62] [97, 98, 10, 10, 99, 10, 100] =
+    [62, 62, 97, 98, 10, 62, 62, 10, 62, 62, 99, 10, 62, 62, 100] := by decide
+
+/-! ### a Write that the underlying writer cuts short -/
+
+/-- Everything a failing Write does (`buf` non-empty; the underlying writer takes `k` bytes and
+reports an error): it was handed the full rendering, took its first `k` bytes, and the count
+returned is exactly the number of caller bytes among them — prefix bytes are not counted.
+`k` is unrestricted: beyond the length of what is handed down it behaves as that length. -/
+theorem write_short (pre : Bytes) (p : Bool) (buf : Bytes) (h : buf ≠ []) (k : Nat) :
+    write pre p buf (some k) =
+      { partial_ := !(atStartAfter (!p) buf), handed := render pre (!p) buf,
+        reached := (render pre (!p) buf).take k, n := callerBytesIn pre (!p) buf k, err := true } := by
+  have hj := join_write pre p h
+  have hp := partial_bit pre (!p) h
+  have hw := written_write pre p h (min k (render pre (!p) buf).length)
+  have hlen : (render pre (!p) buf).length = (tagged pre (!p) buf).length := by simp [render]
+  have hc : callerBytesIn pre (!p) buf (min k (render pre (!p) buf).length) = callerBytesIn pre (!p) buf k := by
+    simp only [callerBytesIn, hlen, ← List.take_eq_take_min]
+  simp only [write, List.isEmpty_iff, h, if_false, hj, hp, hw, hc, ← List.take_eq_take_min]
+
+/-- The count returned on a short write is the number of the caller's bytes that reached the
+underlying writer; it is never negative and never more than the argument.  (The model computes
+it over `Int`, as the Go code computes over `int`, with `remain` going below zero when the cut
+falls inside a prefix: non-negativity is proved here, not assumed by the type.) -/
+theorem write_short_count (pre : Bytes) (p : Bool) (buf : Bytes) (h : buf ≠ []) (k : Nat) :
+    (write pre p buf (some k)).handed = render pre (!p) buf ∧
+    (write pre p buf (some k)).reached = (render pre (!p) buf).take k ∧
+    (write pre p buf (some k)).n =
+      callerBytesIn pre (!p) buf (min k (write pre p buf (some k)).handed.length) ∧
+    (write pre p buf (some k)).n = callerBytesIn pre (!p) buf k ∧
+    0 ≤ (write pre p buf (some k)).n ∧
+    (write pre p buf (some k)).n ≤ buf.length ∧
+    (write pre p buf (some k)).err = true := by
+  have hlen : (render pre (!p) buf).length = (tagged pre (!p) buf).length := by simp [render]
+  have hc : callerBytesIn pre (!p) buf (min k (render pre (!p) buf).length) = callerBytesIn pre (!p) buf k := by
+    simp only [callerBytesIn, hlen, ← List.take_eq_take_min]
+  have hle := callerBytesIn_le pre (!p) buf k
+  rw [write_short pre p buf h k]
+  refine ⟨rfl, rfl, ?_, rfl, ?_, ?_, rfl⟩
+  · simp only [hc]
+  · simp only; omega
+  · simp only; omega
+
+/-- An empty Write does nothing at all, whatever the underlying writer would do. -/
+theorem write_empty (pre : Bytes) (p : Bool) (u : Under) :
+    write pre p [] u = { partial_ := p, handed := [], reached := [], n := 0, err := false } := by
+  simp [write]
+
+/-- A short write anywhere in a stream: after any successful Writes `chunks`, a Write of `buf`
+that is cut after `k` bytes leaves the underlying writer with a prefix of the one-shot rendering
+of the whole text, and returns the number of bytes of `buf` (not of the prefix) inside it. -/
+theorem stream_short (pre : Bytes) (chunks : List Bytes) (buf : Bytes) (h : buf ≠ []) (k : Nat) :
+    (writes pre false (chunks.map (·, none) ++ [(buf, some k)])).1 =
+      (indent pre (chunks.flatten ++ buf)).take ((indent pre chunks.flatten).length + k) ∧
+    (writes pre false (chunks.map (·, none) ++ [(buf, some k)])).2 =
+      chunks.map (fun c => ((c.length : Int), false)) ++
+        [(((callerBytesIn pre true (chunks.flatten ++ buf) ((indent pre chunks.flatten).length + k)
+            - chunks.flatten.length : Nat) : Int), true)] := by
+  have gen : ∀ (p : Bool) (cs : List Bytes),
+      writes pre p (cs.map (·, none) ++ [(buf, some k)]) =
+        (render pre (!p) cs.flatten ++ (render pre (atStartAfter (!p) cs.flatten) buf).take k,
+         cs.map (fun c => ((c.length : Int), false)) ++
+           [(((callerBytesIn pre (atStartAfter (!p) cs.flatten) buf k : Nat) : Int), true)]) := by
+    intro p cs
+    induction cs generalizing p with
+    | nil => simp [writes, write_short pre p buf h k, Lemmas.Indent.render_nil, atStartAfter]
+    | cons c cs ih =>
+      simp only [List.map_cons, List.cons_append, writes, write_success, ih, Bool.not_not,
+        List.flatten_cons, render_append, atStartAfter_append, List.append_assoc]
+  rw [gen false chunks]
+  simp only [oneshot_spec, Bool.not_false, render_append]
+  constructor
+  · rw [List.take_append, List.take_of_length_le (by omega)]; simp
+  · have hlen : (render pre true chunks.flatten).length = (tagged pre true chunks.flatten).length := by
+      simp [render]
+    simp only [callerBytesIn, tagged_append, hlen, List.take_append, List.countP_append]
+    simp [countP_tagged]
+
+example : writes [62, 62] false [([97, 98], none), ([99, 100, 10, 101, 102], some 1)] =
+    ([62, 62, 97, 98, 99], [(2, false), (1, true)]) := by decide
+example : writes [62, 62] false [([97, 98], none), ([99, 100, 10, 101, 102], some 4)] =
+    ([62, 62, 97, 98, 99, 100, 10, 62], [(2, false), (3, true)]) := by decide
+example : writes [62, 62] false [([97, 98], none), ([99, 100, 10, 101, 102], some 6)] =
+    ([62, 62, 97, 98, 99, 100, 10, 62, 62, 101], [(2, false), (4, true)]) := by decide
+example : write [62, 62] false [97, 10, 98] (some 1) =
+    { partial_ := true, handed := [62, 62, 97, 10, 62, 62, 98], reached := [62], n := 0, err := true } := by decide
+example : callerBytesIn [62, 62] false [99, 100, 10, 101, 102] 4 = 3 := by decide
 
 end Goyang.Props.C20
